@@ -58,14 +58,19 @@ type caseSpec struct {
 	// or "bytes" schema blob), "last-chunk" = the file's last data chunk.
 	LateBlob string `json:"late_blob,omitempty"`
 	// Interleave: "" = the files are uploaded one after the other; "chunks-first" = everything
-	// but the last schema upload of every file first, then those schema uploads in seeded order.
+	// but the last schema upload of every file first, then those schema uploads in seeded order;
+	// "parallel-triggers" = as chunks-first, but the last schema uploads of all files are sent
+	// at the same time (one operation); the packs they trigger are held at every zip store
+	// until all of them have got there (execute), so that they really overlap.
 	Interleave string `json:"interleave,omitempty"`
 	// Removes: client removes inside the live history (on the first file):
 	// chunk-before-schema-reupload | chunk-before-schema | after-pack | after-pack-no-reupload |
 	// after-pack-all.
 	Removes string `json:"removes,omitempty"`
 	// Crash: "" = every lower call is a crash point; "pack-writes" = only the writes of a pack
-	// (for files whose full enumeration would not fit the budget).
+	// (for files whose full enumeration would not fit the budget); "none" = no crash point (the
+	// history has concurrent uploads: its lower calls have no replayable order), only the final
+	// state is restarted.
 	Crash string `json:"crash,omitempty"`
 	// LiveAudit: "" = after every lower write of run A; "pack-writes" = after the writes of a pack only.
 	LiveAudit string `json:"live_audit,omitempty"`
@@ -103,9 +108,21 @@ type fileInfo struct {
 type upload struct {
 	Blob   int   `json:"blob"`             // index into world.Universe (upload)
 	Remove []int `json:"remove,omitempty"` // universe indices (remove)
+	// Par: universe indices of blobs that the client uploads at the same time, from one
+	// goroutine each (Blob is Par[0]).  One operation of the history: acknowledged when every
+	// upload has returned.
+	Par []int `json:"par,omitempty"`
 }
 
 func (u upload) isRemove() bool { return len(u.Remove) > 0 }
+
+// blobs lists the universe indices an upload operation sends.
+func (u upload) blobs() []int {
+	if len(u.Par) > 0 {
+		return u.Par
+	}
+	return []int{u.Blob}
+}
 
 // world is everything a case needs, determined by the spec only.
 type world struct {
@@ -485,6 +502,16 @@ func buildWorld(cs caseSpec) (*world, error) {
 		for _, fi := range perm {
 			w.Ops = append(w.Ops, triggers[fi]...)
 		}
+	case "parallel-triggers":
+		var par []int
+		for fi, b := range bodies {
+			w.Ops = append(w.Ops, b...)
+			if len(triggers[fi]) != 1 || triggers[fi][0].isRemove() {
+				return nil, fmt.Errorf("parallel-triggers needs files whose history ends with the schema upload")
+			}
+			par = append(par, triggers[fi][0].Blob)
+		}
+		w.Ops = append(w.Ops, upload{Blob: par[0], Par: par})
 	default:
 		for fidx := range bodies {
 			if fidx == 1 && strings.HasPrefix(w.Files[1].Spec.Content, "as:") {
@@ -516,8 +543,10 @@ func (w *world) model(n, inflight int) (present, unc, removed map[int]bool) {
 			}
 			continue
 		}
-		present[op.Blob] = true
-		delete(removed, op.Blob)
+		for _, i := range op.blobs() {
+			present[i] = true
+			delete(removed, i)
+		}
 	}
 	if inflight >= 0 && inflight < len(w.Ops) {
 		op := w.Ops[inflight]
@@ -527,9 +556,13 @@ func (w *world) model(n, inflight int) (present, unc, removed map[int]bool) {
 					unc[i] = true
 				}
 			}
-		} else if !present[op.Blob] {
-			unc[op.Blob] = true
-			delete(removed, op.Blob)
+		} else {
+			for _, i := range op.blobs() {
+				if !present[i] {
+					unc[i] = true
+					delete(removed, i)
+				}
+			}
 		}
 	}
 	return
